@@ -379,13 +379,55 @@ func (e *Engine) callFunction(st *State, fr *Frame, res ssa.Value, callee *ssa.F
 		// call, one unfolding of its definition at the call's arguments (nested recursive calls of
 		// that unfolding stay folded). Totality of the definition is assumed.
 		cargs := args[:len(callee.Params)]
-		rs := e.ufResults(st, "rec$"+shortFn(callee), callee.Signature, cargs)
+		// A definition that reads the heap denotes a function of the heap too: the symbol is
+		// applied to the current contents of the heap arrays its definition (transitively) reads,
+		// so that two applications are related by congruence only across states in which those
+		// arrays are the same terms (a store or a havoc in between yields a different application).
+		var body Val
+		if _, done := e.recReads[callee]; !done && !e.prepass[callee] {
+			// which heap arrays can one unfolding read, whatever the arguments? A throw-away
+			// unfolding at unconstrained arguments, with the heap recording every array it touches
+			// (computed once per function: the set does not depend on the state)
+			e.prepass[callee] = true
+			savedUnf, savedMode, savedTouch := e.unfolding[callee], e.Mode, st.heap.touch
+			e.unfolding[callee] = true
+			touched := map[string]Sort{}
+			st.heap.touch = &touched
+			var gen []Val
+			for _, p := range callee.Params {
+				v, _ := freshVal("recpre$"+p.Name(), p.Type())
+				gen = append(gen, v)
+			}
+			e.evalSpecFnVal(st, callee, gen)
+			st.heap.touch = savedTouch
+			e.unfolding[callee], e.Mode = savedUnf, savedMode
+			e.prepass[callee] = false
+			var rr []recRead
+			for k, srt := range touched {
+				if !ghostSetArrays[k] {
+					rr = append(rr, recRead{k, srt})
+				}
+			}
+			sort.Slice(rr, func(i, j int) bool { return rr[i].name < rr[j].name })
+			e.recReads[callee] = rr
+		}
 		if !e.unfolding[callee] {
 			e.unfolding[callee] = true
 			savedMode := e.Mode
-			body := e.evalSpecFnVal(st, callee, cargs)
+			body = e.evalSpecFnVal(st, callee, cargs)
 			e.Mode = savedMode
 			e.unfolding[callee] = false
+		}
+		uargs := append([]Val{}, cargs...)
+		uname := "rec$" + shortFn(callee)
+		if e.prepass[callee] {
+			uname = "recpre$" + shortFn(callee) // inside the throw-away unfolding: a symbol of its own
+		}
+		for _, r := range e.recReads[callee] {
+			uargs = append(uargs, Val{st.norm(st.heap.get(r.name, r.sort))})
+		}
+		rs := e.ufResults(st, uname, callee.Signature, uargs)
+		if body != nil {
 			var flat Val
 			for _, r := range rs {
 				flat = append(flat, r...)
@@ -1037,4 +1079,84 @@ func (e *Engine) isUninterp(fn *ssa.Function) bool {
 		}
 	}
 	return false
+}
+
+
+// readPrefixes computes (type based, transitively through static callees) the heap-array prefixes a
+// specification function may read; "*" = anything.
+func (e *Engine) readPrefixes(fn *ssa.Function) map[string]bool {
+	if e.readsets == nil {
+		e.readsets = map[*ssa.Function]map[string]bool{}
+	}
+	if m, ok := e.readsets[fn]; ok {
+		return m
+	}
+	m := map[string]bool{}
+	e.readsets[fn] = m
+	seen := map[*ssa.Function]bool{}
+	var walk func(f *ssa.Function)
+	walk = func(f *ssa.Function) {
+		if f == nil || seen[f] {
+			return
+		}
+		seen[f] = true
+		for _, b := range f.Blocks {
+			for _, ins := range b.Instrs {
+				switch x := ins.(type) {
+				case *ssa.UnOp:
+					if x.Op == token.MUL {
+						if a := rootAlloc(x.X); a != nil && !a.Heap {
+							continue
+						}
+						if _, isGlobal := x.X.(*ssa.Global); isGlobal {
+							m["*"] = true
+							continue
+						}
+						m[addrPrefix(x.X)] = true
+					}
+				case *ssa.Lookup:
+					if mt, ok := x.X.Type().Underlying().(*types.Map); ok {
+						m[mapPrefix(mt)] = true
+					}
+				case *ssa.Range:
+					if mt, ok := x.X.Type().Underlying().(*types.Map); ok {
+						m[mapPrefix(mt)] = true
+					}
+				case *ssa.Call:
+					if x.Call.IsInvoke() {
+						m["*"] = true
+						continue
+					}
+					switch v := x.Call.Value.(type) {
+					case *ssa.Function:
+						if e.isUninterp(v) {
+							continue
+						}
+						if len(v.Blocks) == 0 {
+							continue
+						}
+						walk(v)
+					case *ssa.MakeClosure:
+						walk(v.Fn.(*ssa.Function))
+					case *ssa.Builtin:
+						if v.Name() == "len" || v.Name() == "cap" {
+							if mt, ok := x.Call.Args[0].Type().Underlying().(*types.Map); ok {
+								m[mapPrefix(mt)] = true
+							}
+						}
+					}
+				}
+			}
+		}
+		for _, af := range f.AnonFuncs {
+			walk(af)
+		}
+	}
+	walk(fn)
+	return m
+}
+
+type recRead struct {
+	name string
+	sort Sort
 }
